@@ -446,6 +446,7 @@ Section Lift.
   Hypothesis P_add_branch : forall g s ends sk, P g -> P (fst (g_add_branch g s ends sk)).
   Hypothesis P_compile : forall v g o, P g -> P (fst (g_compile v g o)).
   Hypothesis P_set_err : forall g e, P g -> P (set_err e g).
+  Hypothesis P_set_prenode : forall g x, P g -> P (set_h_prenode x g).
 
   Lemma P_gstep : forall v g c, P g -> P (fst (gstep v g c)).
   Proof. intros v g [] I; simpl; auto. Qed.
@@ -590,15 +591,27 @@ Proof.
     destruct (g_add_branch (w_g w) from ends true) as [g' o]. apply IH. exact I1.
 Qed.
 
-Lemma lwinv_compile : forall v w o ord, lwinv w -> lwinv (fst (w_compile v w o ord)).
+Lemma lwinv_run_statics : forall v order w, lwinv w -> lwinv (fst (run_statics v w order)).
 Proof.
-  intros v w o ord I. unfold w_compile. destruct (g_err (w_g w)); [assumption|].
+  induction order as [|k rest IH]; intros w I; simpl; [assumption|].
+  destruct (alist_get k (w_nodes w)) as [n|]; [|apply IH; assumption].
+  destruct (wn_static n) as [|f fs]; [apply IH; assumption|].
+  dif; [assumption|].
+  destruct (check_mapped (wn_mapped n) (f :: fs)) as [m' [e|]]; [exact I|].
+  apply IH. unfold lwinv. simpl. apply P_set_prenode. exact I.
+Qed.
+
+Lemma lwinv_compile : forall v w o ord sord, lwinv w -> lwinv (fst (w_compile v w o ord sord)).
+Proof.
+  intros v w o ord sord I. unfold w_compile. destruct (g_err (w_g w)); [assumption|].
   pose proof (lwinv_run_branches v (w_branches w) w I) as I1.
   destruct (run_branches v w (w_branches w)) as [w1 [out|]]; simpl in I1; [assumption|].
   pose proof (lwinv_run_nodes (ord ++ map fst (w_nodes w1)) w1 I1) as I2.
   destruct (run_nodes w1 (ord ++ map fst (w_nodes w1))) as [w2 [e|]]; simpl in I2; [assumption|].
-  pose proof (P_compile v (w_g w2) o I2) as I3.
-  destruct (g_compile v (w_g w2) o) as [g' out]. exact I3.
+  pose proof (lwinv_run_statics v (sord ++ map fst (w_nodes w2)) w2 I2) as I3.
+  destruct (run_statics v w2 (sord ++ map fst (w_nodes w2))) as [w3 [e|]]; simpl in I3; [assumption|].
+  pose proof (P_compile v (w_g w3) o I3) as I4.
+  destruct (g_compile v (w_g w3) o) as [g' out]. exact I4.
 Qed.
 
 Lemma lwinv_wstep : forall v w call, lwinv w -> lwinv (fst (wstep v w call)).
@@ -610,6 +623,7 @@ Proof.
   - exact I.
   - pose proof (P_add_edge (w_g w) from END_ false false fields I) as I1.
     destruct (g_add_edge (w_g w) from END_ false false fields). exact I1.
+  - destruct (alist_get _ _); exact I.
   - apply lwinv_compile; assumption.
 Qed.
 
@@ -624,7 +638,10 @@ Definition cinv_end_edges := lcinv_end_edges ginv ginv_add_edge.
 Definition cinv_cstep := lcinv_cstep ginv ginv_add_node ginv_add_edge ginv_add_branch ginv_compile.
 Definition winv_run_nodes := lwinv_run_nodes ginv ginv_add_edge.
 Definition winv_run_branches := lwinv_run_branches ginv ginv_add_branch ginv_set_err.
-Definition winv_wstep := lwinv_wstep ginv ginv_add_node ginv_add_edge ginv_add_branch ginv_compile ginv_set_err.
+Lemma ginv_set_prenode : forall g x, ginv g -> ginv (set_h_prenode x g).
+Proof. intros g x I. eapply ginv_skel; [apply ss_set_h_prenode|assumption]. Qed.
+Definition winv_run_statics := lwinv_run_statics ginv ginv_set_prenode.
+Definition winv_wstep := lwinv_wstep ginv ginv_add_node ginv_add_edge ginv_add_branch ginv_compile ginv_set_err ginv_set_prenode.
 
 (* ================================================================== what a successful compile checked *)
 Record accepted_checks (g : gstate) (o : copt) : Prop := {
@@ -775,24 +792,26 @@ Proof.
   apply (run_keeps (cstep fixed) cinv); [intros; apply cinv_cstep; assumption|apply ginv_init].
 Qed.
 
-Lemma w_compile_sound : forall w o ord w1 r,
-  winv w -> w_compile fixed w o ord = (w1, OCompiled r) -> well_formed (w_g w1) o /\ runner_of (w_g w1) o r.
+Lemma w_compile_sound : forall w o ord sord w1 r,
+  winv w -> w_compile fixed w o ord sord = (w1, OCompiled r) -> well_formed (w_g w1) o /\ runner_of (w_g w1) o r.
 Proof.
-  intros w o ord w1 r I. unfold w_compile. destruct (g_err (w_g w)); [discriminate|].
+  intros w o ord sord w1 r I. unfold w_compile. destruct (g_err (w_g w)); [discriminate|].
   pose proof (winv_run_branches fixed (w_branches w) w I) as I1.
   destruct (run_branches fixed w (w_branches w)) as [wa [out|]] eqn:B; simpl in I1.
   - intros H. inversion H; subst. exfalso. eapply run_branches_not_runner; eassumption.
   - pose proof (winv_run_nodes (ord ++ map fst (w_nodes wa)) wa I1) as I2.
     destruct (run_nodes wa (ord ++ map fst (w_nodes wa))) as [wb [e|]]; simpl in I2; [discriminate|].
-    destruct (g_compile fixed (w_g wb) o) as [g' out] eqn:G. intros H. inversion H; subst. simpl.
+    pose proof (winv_run_statics fixed (sord ++ map fst (w_nodes wb)) wb I2) as I3.
+    destruct (run_statics fixed wb (sord ++ map fst (w_nodes wb))) as [wc [e|]]; simpl in I3; [discriminate|].
+    destruct (g_compile fixed (w_g wc) o) as [g' out] eqn:G. intros H. inversion H; subst. simpl.
     eapply g_compile_sound; eassumption.
 Qed.
 
-Theorem workflow_compile_sound : forall st cs o ord w1 r,
-  wstep fixed (final (wstep fixed) (w_init st) cs) (WCompile o ord) = (w1, OCompiled r) ->
+Theorem workflow_compile_sound : forall st cs o ord sord w1 r,
+  wstep fixed (final (wstep fixed) (w_init st) cs) (WCompile o ord sord) = (w1, OCompiled r) ->
   well_formed (w_g w1) o /\ runner_of (w_g w1) o r.
 Proof.
-  intros st cs o ord w1 r H. simpl in H. eapply w_compile_sound; [|exact H].
+  intros st cs o ord sord w1 r H. simpl in H. eapply w_compile_sound; [|exact H].
   apply (run_keeps (wstep fixed) winv); [intros; apply winv_wstep; assumption|apply ginv_init].
 Qed.
 
